@@ -455,10 +455,27 @@ def layout_parents(lines):
     return parents
 
 
-def text_oracle(tab, writer, text, out=None):
+def expected_lw(cfg, writer):
+    """The lexical writer the CONFIGURATION calls for, constructed independently of the tableau writer: the notation's
+    writer for the resolved format/dialect with the lexical-writer options the caller passed to TabWriter. (Reading
+    them back from ``writer.lw`` would make the oracle blind to options the tableau writer drops on the way.)"""
+    from pytableaux.lang import LexWriter, Notation
+    if cfg.get('via') in ('lw', 'default') or not cfg.get('notation'):
+        return writer.lw
+    try:
+        lwdef = dict(getattr(Notation[cfg['notation']].DefaultWriter, 'defaults', {}) or {})
+        lwopts = {k: v for k, v in (cfg.get('opts') or {}).items() if k in lwdef}
+        if not lwopts:
+            return writer.lw
+        return LexWriter(notation=cfg['notation'], format=writer.lw.format, dialect=writer.lw.dialect, **lwopts)
+    except Exception:
+        return writer.lw
+
+
+def text_oracle(tab, writer, text, out=None, lw=None):
     """Problems of the plain-text rendering: list of dict(clause=..., node_kind=..., node_type=..., detail=...).
     Returns (problems, recognised: bool)."""
-    lw = writer.lw
+    lw = lw or writer.lw
     marks = marks_of(writer)
     cmarks = marks['closure']
     problems = []
@@ -707,7 +724,10 @@ def render_check(case, tab, cfg, out, writers_cache=None, size=0):
             break
     if cfg['format'] == 'text':
         out.count('text_oracle_checks')
-        probs, recognised = text_oracle(tab, w, texts[0], out)
+        elw = expected_lw(cfg, w)
+        if elw is not w.lw:
+            out.count('text_oracle_checks_with_independent_lexwriter')
+        probs, recognised = text_oracle(tab, w, texts[0], out, lw=elw)
         if not recognised:
             out.count('layout_unrecognised')
             if not probs:
